@@ -61,6 +61,14 @@ def exit_cases():
         ("def f() do for c in 'ab' do if c == 'b' then continue; end; 'done' end; f()", ('text', "'done'")),
         ("def r = []; for x in <<3, 1, 2>> do if x == 2 then continue; append(r, x) end; r", ('text', "[1, 3]")),
         ("def r = []; for v in values <<<'b' => 1, 'a' => 2>>> do if v == 2 then continue; append(r, v) end; append(r, 0); r", ('text', "[1, 0]")),
+        # a loop variable hides a variable of the same name only while the loop runs
+        ("def j = 7; for j in [1, 2] do j end; j", ('text', "7")), ("def j = 7; def r = []; for j in [1, 2] do append(r, j) end; [r, j]", ('text', "[[1, 2], 7]")),
+        ("def a = 1; def b = 2; for [a, b] in [[5, 6], [7, 8]] do a + b end; [a, b]", ('text', "[1, 2]")),
+        ("def c = 'o'; for c in 'ab' do c end; c", ('text', "'o'")), ("def k = 3; for k in <<9, 8>> do k end; k", ('text', "3")),
+        ("def k = 3; for k in keys <<<'x' => 1>>> do k end; k", ('text', "3")), ("def q = 3; for q in [] do q end; q", ('text', "3")),
+        ("def e = 9; do for e in [1, 2] do error 'x' end catch all e end", ('text', "9")), ("def m = 5; for m in [1, 2, 3] do if m == 2 then break end; m", ('text', "5")),
+        ("def w = 1; def g() do for w in [1, 2] do if w == 2 then return w end end; [g(), w]", ('text', "[2, 1]")),
+        ("for zz in [1] do zz end; zz", ('error', "'ERROR'")), ("def f() do def t = 1; for t in [2] do t end; t end; f()", ('text', "1")),
     ]
 
 
